@@ -269,17 +269,18 @@ def boundary_constructions(draw, fmt):
 
 
 def boundary_grid(fmt):
-    """complete grid of small boundary constructions: an escaped-on-save token `back` characters before a power-of-two
-    offset (256..8192), counted from the start of the value (note data or a property value) or from the start of the
-    serialized text (the value of the first property)"""
+    """complete grid of small boundary constructions: an escaped-on-save token `back` characters before a round offset
+    (powers of two 256..8192 and round decimal sizes 500..10000), counted from the start of the value (note data or a
+    property value) or from the start of the serialized text (the value of the first property - for SSC that is
+    VERSION itself)"""
     out = []
-    for size in (256, 512, 1024, 2048, 4096, 8192):
+    for size in (256, 500, 512, 1000, 1024, 2000, 2048, 4000, 4096, 8192, 10000):
         for back in (-1, 0, 1, 2, 3):
             for tok in ("//", ":", ";", "\\"):
                 for where in ("notes", "value", "text"):
-                    key = "BGCHANGES"
+                    key = "VERSION" if (where == "text" and fmt == "ssc") else "BGCHANGES"
                     if where == "text":
-                        prefix = ("#VERSION:0.83;\n" if fmt == "ssc" else "") + "#" + key + ":"
+                        prefix = "#" + key + ":"
                         fill = size - back - len(prefix)
                     else:
                         fill = size - back
@@ -290,7 +291,8 @@ def boundary_grid(fmt):
                     if fmt == "sm":
                         ops.append(["chart_add", {"fields": ["dance-single", "", "Hard", "9", "0,0", body if where == "notes" else "0000"], "extra": None, "via": "from_msd"}])
                     else:
-                        ops.insert(0, ["set", "VERSION", "0.83"])
+                        if key != "VERSION":
+                            ops.insert(0, ["set", "VERSION", "0.83"])
                         ops.append(["chart_add", {"base": "empty", "del": [], "items": [["STEPSTYPE", "dance-single"], ["NOTES", body if where == "notes" else "0000"]]}])
                     out.append({"kind": "history", "fmt": fmt, "base": "empty", "ops": ops})
     return out
